@@ -165,10 +165,16 @@ class ConsumerWorld(ClientWorld):
 
             def call(*a, **kw):
                 world.note_request_issue(name, a, kw)
+                out = client.__dict__.setdefault("_verif_outstanding", {})
+                if name == "send_fetch_request" and out.get(name, 0) >= 1 and world.PROP == "C02":
+                    world.viol("delivery", "second-fetch-outstanding",
+                               "the consumer issued a fetch while its previous fetch call has not completed")
+                out[name] = out.get(name, 0) + 1
                 d = orig(*a, **kw)
                 ep = world.epoch
 
                 def done(res):
+                    out[name] -= 1
                     if world.epoch == ep:
                         world.note_request_result(name, res)
                     return res
@@ -514,11 +520,6 @@ class ConsumerWorld(ClientWorld):
         if api == rk.FETCH:
             part = body["topics"][0]["partitions"][0]
             self.fetch_reqs.append((self.step, self.clock.seconds(), part["offset"], part["max_bytes"], self.epoch))
-            unanswered = [r for r in self.cluster.journal if r.parsed and r.parsed["api_key"] == rk.FETCH and
-                          not r.answered and r is not req and r.cid in [c.cid for c in self.net.open_conns()]]
-            if unanswered and self.PROP == "C02":
-                self.viol("delivery", "second-fetch-outstanding",
-                          "a fetch was issued while another one is still unanswered on a live connection")
             if not self.first_fetch_seen or self.reset_pending:
                 self.first_fetch_seen = True
                 self.fix_position(part["offset"])
